@@ -1,4 +1,4 @@
-import DoltVerif.Lemmas.ProllyMergeRange
+import DoltVerif.Lemmas.ProllyMergeR2
 import DoltVerif.Props.C13
 /-!
 C14 — Three-way tree merges follow key-wise merge semantics.
@@ -408,6 +408,162 @@ theorem range_patch_lookup {cmp : Bytes → Bytes → Ordering} (ol : OrdLaws cm
   have := lookup_replaceRange ol sl p.keyBelowStart p.endKey hlohi hins k
   rw [hto] at this ⊢
   exact this
+
+/-! ### the range-patch part: R3 proved, R2's interval tests proved, R1 and the rest of R2 as named hypotheses -/
+
+/-- the mapping of a key after applying a tiled patch stream to `l`: what the covering patch says,
+or `l`'s own mapping when no patch covers the key -/
+def patchedValue (cmp : Bytes → Bytes → Ordering) (ps : List Patch) (l : List KV) (k : Bytes) : Option KV :=
+  match ps.find? (fun p => p.covers cmp k) with
+  | some p => p.valAt cmp k
+  | none => lookupKV cmp k l
+
+/-- **R3 — apply_tiled_stream** (proved): `ApplyPatches` over any *tiled* stream of point and range
+patches (`Tiles`: every patch well-formed — a range patch carries strictly ascending pairs inside
+`(keyBelowStart, endKey]` —, each patch starts after the previous one ends) applied to a strictly
+ascending content yields a strictly ascending content whose every key has `patchedValue`. -/
+theorem apply_tiled_stream {cmp : Bytes → Bytes → Ordering} (ol : OrdLaws cmp) (ps : List Patch) (l : List KV)
+    (sl : Sorted cmp l) (ht : Tiles cmp ps) :
+    Sorted cmp (applyPatches cmp l ps) ∧ ∀ k, lookupKV cmp k (applyPatches cmp l ps) = patchedValue cmp ps l k :=
+  apply_tiled ol ps l sl ht
+
+/-- what R1 ∧ R2 have to deliver about the stream `SendPatches` emits: it tiles, applied to left it
+gives the key-wise merge at every key, and the collisions are the specification's, in key order -/
+structure StreamDenotesMerge (cmp : Bytes → Bytes → Ordering) (collide : Collide) (B L R : List KV)
+    (ps : List Patch) (cs : List Collision) : Prop where
+  tiles : Tiles cmp ps
+  value : ∀ k, patchedValue cmp ps L k = (mergeKey collide (lookupKV cmp k B) (lookupKV cmp k L) (lookupKV cmp k R)).1
+  coll : ∀ c, c ∈ cs ↔ ∃ k, (mergeKey collide (lookupKV cmp k B) (lookupKV cmp k L) (lookupKV cmp k R)).2 = some c
+  collAsc : cs.Pairwise (fun c1 c2 => cmp c1.left.key c2.left.key = .lt)
+
+/-- **patch_merge_refines_of_stream** (R3 as consumer): a stream that denotes the merge, applied by
+`ApplyPatches`, gives exactly the key-wise merge. -/
+theorem patch_merge_refines_of_stream {cmp : Bytes → Bytes → Ordering} (ol : OrdLaws cmp) (collide : Collide) (B L R : List KV)
+    (sl : Sorted cmp L) (ps : List Patch) (cs : List Collision) (h : StreamDenotesMerge cmp collide B L R ps cs) :
+    Sorted cmp (applyPatches cmp L ps) ∧
+    (∀ k, lookupKV cmp k (applyPatches cmp L ps) = (mergeKey collide (lookupKV cmp k B) (lookupKV cmp k L) (lookupKV cmp k R)).1) ∧
+    (∀ c, c ∈ cs ↔ ∃ k, (mergeKey collide (lookupKV cmp k B) (lookupKV cmp k L) (lookupKV cmp k R)).2 = some c) ∧
+    cs.Pairwise (fun c1 c2 => cmp c1.left.key c2.left.key = .lt) := by
+  obtain ⟨s1, s2⟩ := apply_tiled_stream ol ps L sl h.tiles
+  exact ⟨s1, fun k => by rw [s2 k, h.value k], h.coll, h.collAsc⟩
+
+/-- keys strictly before the interval of a patch -/
+def startsAfter (cmp : Bytes → Bytes → Ordering) (p : Patch) (k : Bytes) : Prop :=
+  if p.level = 0 then cmp k p.endKey = .lt else ∃ a, p.keyBelowStart = some a ∧ cmp k a ≠ .gt
+
+/-- where a generator stands: nothing produced yet, just produced a patch, or exhausted -/
+inductive GenPos where
+  | start
+  | at (p : Patch) (t : DiffType)
+  | done
+
+def GenPos.ofResult : Option (Patch × DiffType) → GenPos
+  | some (p, t) => .at p t
+  | none => .done
+
+/-- Content-level soundness of a `PatchGenerator` for the change `B → X`, as an invariant `Inv d pos`
+over (generator state, position) that is closed under `Next` and `split`:
+* the current patch is well formed, says what `X` maps the keys of its interval to, and — for a point
+  patch — is the genuine change of its key;
+* `Next` (from `start` or from a patch) produces a patch lying after the current one, and no key in
+  between is changed from `B` to `X` (no change is lost; when nothing follows, nothing after the
+  current patch is changed);
+* `split` of a range patch produces a patch whose interval starts inside the split one, and no key of
+  the split interval before it is changed. -/
+structure GenSound (cmp : Bytes → Bytes → Ordering) (fuel : Nat) (B X : List KV)
+    (Inv : PG → GenPos → Prop) : Prop where
+  cur : ∀ d p t, Inv d (.at p t) → PatchOK cmp p ∧
+    (∀ k, p.covers cmp k = true → lookupKV cmp k X = p.valAt cmp k) ∧
+    (p.level = 0 → changeOf (lookupKV cmp p.endKey B) (lookupKV cmp p.endKey X) =
+      some ⟨t, p.endKey, pvalBytes p.from?, pvalBytes p.to?⟩)
+  next : ∀ d pos d' c', Inv d pos → pos ≠ .done → pgNext cmp fuel d = .ok (d', c') → Inv d' (GenPos.ofResult c') ∧
+    (∀ p t p' t', pos = .at p t → c' = some (p', t') → Patch.before cmp p p') ∧
+    (∀ k, (∀ p t, pos = .at p t → cmp p.endKey k = .lt) → (∀ p' t', c' = some (p', t') → startsAfter cmp p' k) →
+      changeOf (lookupKV cmp k B) (lookupKV cmp k X) = none)
+  split : ∀ d p t d' c', Inv d (.at p t) → p.level ≠ 0 → pgSplit cmp fuel d = .ok (d', c') →
+    Inv d' (GenPos.ofResult c') ∧
+    (∀ k, p.covers cmp k = true → (∀ p' t', c' = some (p', t') → startsAfter cmp p' k) →
+      changeOf (lookupKV cmp k B) (lookupKV cmp k X) = none)
+
+/-- **R1 (named hypothesis)**: the generator `PatchGeneratorFromRoots base x` is sound across level
+changes — there is an invariant, holding initially, that is `GenSound`.  Proved only for single-leaf
+trees (`pgNext_leaf`, invariant `LeafStr`); in general it needs C13's cursor invariants for cursor
+pairs at different levels, the `previousKey` bookkeeping of `skipCommonVisitingParents`, and the
+alignment loops of `split` / `advanceFromPreviousPatch`. -/
+def R1_GeneratorSound (cmp : Bytes → Bytes → Ordering) : Prop :=
+  ∀ (store : Addr → Option Tree) (fuel : Nat) (base x : Tree) (d : PG),
+    base.WF store → x.WF store → base.KeysOK → x.KeysOK → Sorted cmp base.flatten → Sorted cmp x.flatten →
+    pgFromRoots base x = .ok d →
+    ∃ Inv, GenSound cmp fuel base.flatten x.flatten Inv ∧ Inv d .start
+
+/-- **R2 (named hypothesis)**: over two sound generators, `SendPatches` (all four level combinations,
+the same-address shortcut, split-first / split-both, `getNextAndSplitIfAtEnd`) emits a stream that
+denotes the key-wise merge.  Proved here: the interval tests of its range branches
+(`sendPatches_interval_tests`) and the whole loop for point-only streams (`sendPatches_leaf`); open:
+preservation of "the output so far is the merge below the frontier" through the range branches. -/
+def R2_SendPatchesSound (cmp : Bytes → Bytes → Ordering) (collide : Collide) : Prop :=
+  ∀ (fuel : Nat) (B L R : List KV) (ld rd : PG) (InvL InvR : PG → GenPos → Prop)
+    (ps : List Patch) (cs : List Collision),
+    Sorted cmp B → Sorted cmp L → Sorted cmp R →
+    GenSound cmp fuel B L InvL → GenSound cmp fuel B R InvR → InvL ld .start → InvR rd .start →
+    sendPatches cmp collide fuel ld rd = .ok (ps, cs) →
+    StreamDenotesMerge cmp collide B L R ps cs
+
+/-- **sendPatches_interval_tests** (the proved part of R2): the comparisons the range branches of
+`SendPatches` make decide interval overlap correctly — `left.EndKey ≤ right.KeyBelowStart` (nil as
+minimum) ⇒ no key of left's interval lies in right's; a point key `x` against a range patch:
+`x ≤ KeyBelowStart` ⇒ outside, `x > EndKey` ⇒ outside, otherwise inside (so the range must be split);
+equal `To` addresses ⇒ equal pairs (content addressing). -/
+theorem sendPatches_interval_tests {cmp : Bytes → Bytes → Ordering} (ol : OrdLaws cmp) :
+    (∀ (l r : Patch), r.level ≠ 0 → ordLE (cmpNilMin cmp (some l.endKey) r.keyBelowStart) = true →
+      ∀ k, l.covers cmp k = true → r.covers cmp k = false) ∧
+    (∀ (x : Bytes) (r : Patch), r.level ≠ 0 →
+      (ordLE (cmpNilMin cmp (some x) r.keyBelowStart) = true → r.covers cmp x = false) ∧
+      (cmp x r.endKey = .gt → r.covers cmp x = false) ∧
+      (ordLE (cmpNilMin cmp (some x) r.keyBelowStart) = false → cmp x r.endKey ≠ .gt → r.covers cmp x = true)) ∧
+    (∀ (store : Addr → Option Tree) (a b : Addr) (ta tb : Tree), store a = some ta → store b = some tb →
+      (PVal.sub a ta).beq (PVal.sub b tb) = true → ta.flatten = tb.flatten) :=
+  ⟨fun l r hr h k hl => disjoint_of_end_le_start ol hr h hl,
+   fun x r hr => point_range_decision ol x hr,
+   fun store a b ta tb ha hb h => same_address_same_pairs ha hb h⟩
+
+/-- **patch_merge_refines_of_R1_R2**: `patch_merge_refines` (content = key-wise merge at every key,
+collisions = the specification's in key order) for ALL well-formed trees follows from R1 ∧ R2 — R3
+(`apply_tiled_stream`) is proved. -/
+theorem patch_merge_refines_of_R1_R2 {cmp : Bytes → Bytes → Ordering} (ol : OrdLaws cmp) (collide : Collide)
+    (r1 : R1_GeneratorSound cmp) (r2 : R2_SendPatchesSound cmp collide)
+    (store : Addr → Option Tree) (base left right : Tree)
+    (hb : base.WF store) (hl : left.WF store) (hr : right.WF store)
+    (kb : base.KeysOK) (kl : left.KeysOK) (kr : right.KeysOK)
+    (sb : Sorted cmp base.flatten) (sl : Sorted cmp left.flatten) (sr : Sorted cmp right.flatten)
+    (content : List KV) (ps : List Patch) (cs : List Collision)
+    (h : threeWayMerge cmp collide base left right = .ok (content, ps, cs)) :
+    Sorted cmp content ∧
+    (∀ k, lookupKV cmp k content =
+      (mergeKey collide (lookupKV cmp k base.flatten) (lookupKV cmp k left.flatten) (lookupKV cmp k right.flatten)).1) ∧
+    (∀ c, c ∈ cs ↔ ∃ k, (mergeKey collide (lookupKV cmp k base.flatten) (lookupKV cmp k left.flatten)
+      (lookupKV cmp k right.flatten)).2 = some c) ∧
+    cs.Pairwise (fun c1 c2 => cmp c1.left.key c2.left.key = .lt) := by
+  unfold threeWayMerge at h
+  simp only [bind, Except.bind] at h
+  cases h1 : pgFromRoots base left with
+  | error e => simp [h1] at h
+  | ok ld =>
+    cases h2 : pgFromRoots base right with
+    | error e => simp [h1, h2] at h
+    | ok rd =>
+      simp only [h1, h2] at h
+      cases h3 : sendPatches cmp collide (mergeFuel base left right) ld rd with
+      | error e => simp [h3] at h
+      | ok res =>
+        obtain ⟨ps', cs'⟩ := res
+        simp [h3, pure, Except.pure] at h
+        obtain ⟨rfl, rfl, rfl⟩ := h
+        obtain ⟨InvL, gl, il⟩ := r1 store (mergeFuel base left right) base left ld hb hl kb kl sb sl h1
+        obtain ⟨InvR, gr, ir⟩ := r1 store (mergeFuel base left right) base right rd hb hr kb kr sb sr h2
+        have sd := r2 (mergeFuel base left right) base.flatten left.flatten right.flatten ld rd InvL InvR ps' cs'
+          sb sl sr gl gr il ir h3
+        exact patch_merge_refines_of_stream ol collide _ _ _ sl ps' cs' sd
 
 /-! ### statements that are compared by the harness, not proved -/
 
